@@ -333,6 +333,26 @@ func shutConfigs() []shutCfg {
 		}
 		w.script = func(w *world) {}
 	})
+	add("late-ops-after-run", false, func(w *world) {
+		// requests through a Conn the application still holds after Run has returned: no callback may
+		// run any more and the framework must not touch descriptors it has closed (the wake-up
+		// eventfd's number may belong to someone else by now); the ledger judges the latter under C07
+		w.script = func(w *world) {
+			done := 0
+			idlePeer(w, &done)
+			w.ctl(&done, 1, nil)
+			sched.Go("late-user", func() {
+				sched.BlockUntil(func() bool { return w.runDone && len(w.conns) > 0 })
+				c := w.conns[0].c
+				_ = c.Wake(nil)
+				_ = c.AsyncWrite([]byte("late"), nil)
+				_ = c.AsyncWritev([][]byte{[]byte("later")}, nil)
+				_ = c.Close()
+				sched.WaitIdle()
+			})
+			w.closerAfterRun()
+		}
+	})
 	add("two-conns/onclose-returns-shutdown", true, func(w *world) {
 		// every OnClose answers Shutdown: the shutdown sweep must still reach every connection
 		w.onClose = func(w *world, ci *connInfo, err error) Action { return Shutdown }
